@@ -58,7 +58,6 @@ def specs(tier: str, seed: int) -> list[dict]:
     add("GrandCanonical", "A3", [["e", "E_trans+E_trans"]], ("momenta", "fix:2"))
     add("GrandCanonical", "A3", [["x", "D_ball+E_trans", 1.0, "gc"]], ("tags",))
     add("GrandCanonical", "A2", [["x", "D_ball+E_trans+E_trans", 1.0, "gc"]], ())
-    add("GrandCanonical", "A3", [["e", "E_trans"]], ("fixcom",))
     add("GrandCanonical", "A3", [["e", "E_trans"]], (), labels=[1, -1, 0])
     if tier == "thorough":
         for s in list(out):
@@ -88,9 +87,12 @@ def _late(spec):
 
 
 def movekey(spec, name):
+    """Kind of the table entry: operation names stripped ('E_trans+E_trans' -> 'E+E')."""
+    import re
+
     for e in spec["table"]:
         if e[0] == name:
-            return e[1]
+            return re.sub(r"_[a-z]+", "", e[1])
     return name
 
 
@@ -142,6 +144,15 @@ def task(spec: dict) -> dict:
             ck = constraint_kinds(spec)
             rep = {"check": PID, "func": "task", "arg": {**spec, "only": ch.choices}}
             if t.error is not None:
+                counters["errors_seen"] = counters.get("errors_seen", 0) + 1
+                ac = t.at_criteria
+                seg_pts = [p for p in ch.trace if p.seg == t.seg]
+                vetoed = any(p.kind == "user" and p.idx == 1 for p in seg_pts)
+                abandoning = (ac is not None and ac.get("result") is False) or (ac is None and vetoed)
+                if not abandoning:
+                    # raised while proposing or accepting: not a statement of C03 (see C04/C05)
+                    counters["errors_outside_abandon_path"] = counters.get("errors_outside_abandon_path", 0) + 1
+                    break
                 viol.append(
                     {
                         "signature": f"C03/{spec['ens']}/{mk}/exception/{t.error['type']}@{t.error['qwhere'] or t.error['where']}",
